@@ -342,6 +342,27 @@ def _audit_one(pid):
     return len(names), discharged, problems, ""
 
 
+def coqchk(files):
+    """independent re-check of the compiled Props objects and everything they depend on (thorough tier):
+    returns a list of problems (empty = `Axioms: <none>`, nothing relying on type-in-type, unsafe fixpoints
+    or assumed positivity)"""
+    probs = []
+    for f in files:
+        if not os.path.exists(os.path.join(COQ, "Props", f + ".vo")):
+            continue
+        rc, out, err = sh(["timeout", "3600", "coqchk", "-silent", "-o", "-Q", ".", "MV", "MV.Props." + f], cwd=COQ)
+        txt = out + err
+        if rc != 0:
+            probs.append("coqchk MV.Props.%s failed (rc %d): %s" % (f, rc, txt[-400:]))
+            continue
+        for key in ("Axioms", "Constants/Inductives relying on type-in-type",
+                    "Constants/Inductives relying on unsafe (co)fixpoints", "Inductives whose positivity is assumed"):
+            m = re.search(r"\* " + re.escape(key) + r":\s*(.*?)(?=\n\s*\n|\Z)", txt, re.S)
+            if not m or m.group(1).strip() != "<none>":
+                probs.append("coqchk MV.Props.%s: %s: %s" % (f, key, (m.group(1).strip() if m else "?")[:300]))
+    return probs
+
+
 # ---------------------------------------------------------------- runners
 def show_case(fields):
     return ";".join(",".join(str(n) for n in f) for f in fields)
